@@ -8,7 +8,7 @@ seeds=${@:-$(ls seeded | grep -v MATRIX | grep -v "^old-")}
 trap 'git -C /repo checkout -- . ' EXIT INT TERM
 for s in $seeds; do
   [ -f seeded/$s/patch.diff ] || continue
-  prop=$(echo $s | sed 's/^R-//; s/-.*//')
+  prop=$(echo $s | sed 's/^R-//; s/-.*//; s/[a-z]$//')
   checks=$prop
   [ "$s" = "C21" ] && checks="C21 C23"
   if ! git -C /repo apply --check /verif/seeded/$s/patch.diff 2>/dev/null; then echo "$s - does-not-apply" >> $out; continue; fi
